@@ -162,6 +162,14 @@ class Effects:
                 return None
             if isinstance(v, ast.Call) and isinstance(v.func, ast.Name) and v.func.id == "cast" and len(v.args) == 2:
                 v = v.args[1]
+            # x = self.m()  where m hands out one of the object's own attributes (return self.A): x aliases self.A
+            if isinstance(v, ast.Call) and isinstance(v.func, ast.Attribute) and isinstance(v.func.value, ast.Name) and v.func.value.id == selfname and selfcls is not None:
+                mm = selfcls.lookup(v.func.attr)
+                if mm is not None and not isinstance(mm.node, ast.Lambda) and mm.node.args.args:
+                    sn2 = mm.node.args.args[0].arg
+                    rets = [x for x in walk_body(mm.node, include_lambdas=False) if isinstance(x, ast.Return) and x.value is not None]
+                    if len(rets) == 1 and dotted(rets[0].value) and dotted(rets[0].value).startswith(sn2 + ".") and dotted(rets[0].value).count(".") == 1:
+                        return ("attr", selfname, dotted(rets[0].value).split(".")[1])
             if _is_fresh_value(v, repo, m):
                 return ("fresh",)
             d = dotted(v)
